@@ -32,6 +32,161 @@ void (*io_write_next)(struct snapraid_io* io, block_off_t blockcur, int skip, in
 void (*io_refresh)(struct snapraid_io* io) = 0;
 
 
+#ifdef SNAPRAID_VERIF
+/*
+ * Verification hook H1: trace of the slot hand-overs and schedule perturbation.
+ *
+ * SNAPRAID_VERIF_IOTRACE=<file>  append one ndjson record per slot hand-over
+ *   (written while io_mutex is still held, after the state change) and one per
+ *   task begin/end (outside the mutex). "q" is a global atomic sequence number.
+ * SNAPRAID_VERIF_YIELD=<seed>    seeded sched_yield()/usleep() at these points.
+ *
+ * Nothing happens if the two variables are not set.
+ */
+#include <sched.h>
+
+static int vf_state = 0; /* 0 = to be initialized, 1 = active, -1 = inactive */
+static int vf_fd = -1;
+static int vf_yield = 0;
+static unsigned long long vf_seed = 0;
+static volatile unsigned long vf_seq = 0;
+static volatile unsigned long vf_point = 0;
+
+static void vf_init(void)
+{
+	const char* e;
+
+	if (vf_state != 0)
+		return;
+	vf_state = -1;
+
+	e = getenv("SNAPRAID_VERIF_IOTRACE");
+	if (e && *e) {
+		vf_fd = open(e, O_WRONLY | O_CREAT | O_APPEND, 0644);
+		if (vf_fd >= 0)
+			vf_state = 1;
+	}
+
+	e = getenv("SNAPRAID_VERIF_YIELD");
+	if (e && *e) {
+		vf_seed = strtoull(e, 0, 10);
+		vf_yield = 1;
+		vf_state = 1;
+	}
+}
+
+/**
+ * Seeded perturbation of the schedule.
+ * The decision depends only on the seed and on the number of the point.
+ */
+static void vf_perturb(int inside)
+{
+	unsigned long long h;
+
+	if (vf_state != 1 || !vf_yield)
+		return;
+
+	h = vf_seed + 0x9E3779B97F4A7C15ULL * (1 + __sync_fetch_and_add(&vf_point, 1));
+	h = (h ^ (h >> 30)) * 0xBF58476D1CE4E5B9ULL;
+	h = (h ^ (h >> 27)) * 0x94D049BB133111EBULL;
+	h ^= h >> 31;
+
+	if (inside) {
+		/* holding the mutex: rarely, and shortly */
+		switch (h & 15) {
+		case 0 : sched_yield(); break;
+		case 1 : usleep((h >> 8) % 300); break;
+		}
+	} else {
+		switch (h & 7) {
+		case 0 : case 1 : sched_yield(); break;
+		case 2 : usleep((h >> 8) % 2000); break;
+		case 3 : usleep((h >> 8) % 100); break;
+		}
+	}
+}
+
+/**
+ * Write one record. 'actor' is 'm' (caller), 'r' or 'w' followed by the 1-based worker number.
+ * 'inside' is 1 when called with io_mutex held (the sequence number is then taken with the mutex held),
+ * 0 when called by a thread outside the mutex, 2 in mono mode (no threads).
+ */
+static void vf_event(struct snapraid_io* io, const char* kind, char actor, unsigned actor_i,
+	int inside, int slot, long long pos, int x, int st, const char* extra)
+{
+	char buf[512];
+	char who[16];
+	int len;
+	unsigned long q;
+
+	if (vf_state != 1)
+		return;
+
+	if (vf_fd >= 0) {
+		q = __sync_fetch_and_add(&vf_seq, 1);
+
+		if (actor == 'm')
+			snprintf(who, sizeof(who), "main");
+		else
+			snprintf(who, sizeof(who), "%c%u", actor, actor_i);
+
+		/* the shared indexes are read only when it is safe to do it */
+		len = snprintf(buf, sizeof(buf), "{\"q\":%lu,\"a\":\"%s\",\"t\":%u,\"k\":\"%s\",\"slot\":%d,\"pos\":%lld,\"ri\":%d,\"wi\":%d,\"x\":%d,\"st\":%d%s%s}\n",
+			q, who, actor == 'm' ? 0 : actor_i, kind, slot, pos, inside ? (int)io->reader_index : -1, inside ? (int)io->writer_index : -1, x, st, extra ? "," : "", extra ? extra : "");
+		if (len > 0 && len < (int)sizeof(buf)) {
+			ssize_t ret = write(vf_fd, buf, len);
+			(void)ret;
+		}
+	}
+
+	if (inside != 2)
+		vf_perturb(inside);
+}
+
+/**
+ * Write the header record with the parameters of the run.
+ */
+static void vf_event_start(struct snapraid_io* io)
+{
+	char* buf;
+	size_t size;
+	size_t len;
+	block_off_t i;
+	int first;
+	unsigned long q;
+
+	if (vf_state != 1 || vf_fd < 0)
+		return;
+
+	size = 512;
+	for (i = io->block_start; i < io->block_max; ++i)
+		if (!io->block_enabled || bit_vect_test(io->block_enabled, i))
+			size += 12;
+	buf = malloc_nofail(size);
+
+	q = __sync_fetch_and_add(&vf_seq, 1);
+	len = snprintf(buf, size, "{\"q\":%lu,\"a\":\"main\",\"k\":\"Start\",\"n\":%u,\"rmax\":%u,\"wmax\":%u,\"dc\":%u,\"pc\":%u,\"bs\":%u,\"bm\":%u,\"sigout\":%d,\"en\":[",
+		q, io->io_max, io->reader_max, io->writer_max, io->data_count, io->writer_max ? 0 : io->parity_count,
+		io->block_start, io->block_max, thread_cond_signal_outside);
+	first = 1;
+	for (i = io->block_start; i < io->block_max; ++i) {
+		if (!io->block_enabled || bit_vect_test(io->block_enabled, i)) {
+			len += snprintf(buf + len, size - len, "%s%u", first ? "" : ",", i);
+			first = 0;
+		}
+	}
+	len += snprintf(buf + len, size - len, "]}\n");
+	if (len < size) {
+		ssize_t ret = write(vf_fd, buf, len);
+		(void)ret;
+	}
+	free(buf);
+}
+
+#define VF_R(worker) ((unsigned)((worker) - (worker)->io->reader_map) + 1)
+#define VF_W(worker) ((unsigned)((worker) - (worker)->io->writer_map) + 1)
+#endif
+
 /**
  * Get the next block position to process.
  */
@@ -153,6 +308,10 @@ static block_off_t io_read_next_mono(struct snapraid_io* io, void*** buffer)
 	/* set the buffer to use */
 	*buffer = io->buffer_map[0];
 
+#ifdef SNAPRAID_VERIF
+	vf_event(io, "ReadNext", 'm', 0, 2, 0, blockcur_schedule, 0, io->reader_map[0].task_map[0].state, 0);
+#endif
+
 	return blockcur_schedule;
 }
 
@@ -174,6 +333,10 @@ static void io_write_preset_mono(struct snapraid_io* io, block_off_t blockcur, i
 		/* schedule the next write */
 		io_writer_sched(io, 0, blockcur);
 	}
+
+#ifdef SNAPRAID_VERIF
+	vf_event(io, "WritePreset", 'm', 0, 2, 0, blockcur, 0, 0, skip ? "\"skip\":1" : "\"skip\":0");
+#endif
 }
 
 static void io_write_next_mono(struct snapraid_io* io, block_off_t blockcur, int skip, int* writer_error)
@@ -186,6 +349,14 @@ static void io_write_next_mono(struct snapraid_io* io, block_off_t blockcur, int
 	/* report errors */
 	for (i = 0; i < IO_WRITER_ERROR_MAX; ++i)
 		writer_error[i] = io->writer_error[i];
+
+#ifdef SNAPRAID_VERIF
+	{
+		char vf_extra[96];
+		snprintf(vf_extra, sizeof(vf_extra), "\"err\":[%d,%d,%d,%d]", writer_error[0], writer_error[1], writer_error[2], writer_error[3]);
+		vf_event(io, "WriteNext", 'm', 0, 2, 0, blockcur, 0, 0, vf_extra);
+	}
+#endif
 }
 
 static void io_refresh_mono(struct snapraid_io* io)
@@ -210,6 +381,10 @@ static struct snapraid_task* io_task_read_mono(struct snapraid_io* io, unsigned 
 	/* do the work */
 	if (task->state != TASK_STATE_EMPTY)
 		worker->func(worker, task);
+
+#ifdef SNAPRAID_VERIF
+	vf_event(io, "CallerGot", 'm', 0, 2, 0, task->position, i + 1, task->state, 0);
+#endif
 
 	/* return the position */
 	*pos = i - base;
@@ -249,6 +424,10 @@ static void io_parity_write_mono(struct snapraid_io* io, unsigned* pos, unsigned
 	if (task->state != TASK_STATE_EMPTY)
 		worker->func(worker, task);
 
+#ifdef SNAPRAID_VERIF
+	vf_event(io, "CallerWriteOk", 'm', 0, 2, 0, task->position, i + 1, task->state, 0);
+#endif
+
 	/* return the position */
 	*pos = i;
 
@@ -265,11 +444,19 @@ static void io_start_mono(struct snapraid_io* io,
 	io->block_max = blockmax;
 	io->block_enabled = block_enabled;
 	io->block_next = blockstart;
+
+#ifdef SNAPRAID_VERIF
+	vf_event_start(io);
+#endif
 }
 
 static void io_stop_mono(struct snapraid_io* io)
 {
 	(void)io;
+
+#ifdef SNAPRAID_VERIF
+	vf_event(io, "Stop", 'm', 0, 2, -1, -1, 0, 0, 0);
+#endif
 }
 
 /*****************************************************************************/
@@ -287,6 +474,10 @@ static struct snapraid_task* io_reader_step(struct snapraid_worker* worker)
 {
 	struct snapraid_io* io = worker->io;
 
+#ifdef SNAPRAID_VERIF
+	vf_perturb(0);
+#endif
+
 	/* the synchronization is protected by the io mutex */
 	thread_mutex_lock(&io->io_mutex);
 
@@ -296,6 +487,9 @@ static struct snapraid_task* io_reader_step(struct snapraid_worker* worker)
 		/* check if the worker has to exit */
 		/* even if there is work to do */
 		if (io->done) {
+#ifdef SNAPRAID_VERIF
+			vf_event(io, "ReaderExit", 'r', VF_R(worker), 1, worker->index, -1, worker->index, 0, 0);
+#endif
 			thread_mutex_unlock(&io->io_mutex);
 			return 0;
 		}
@@ -317,6 +511,10 @@ static struct snapraid_task* io_reader_step(struct snapraid_worker* worker)
 			worker->index = next_index;
 			task = &worker->task_map[worker->index];
 
+#ifdef SNAPRAID_VERIF
+			vf_event(io, "ReaderTake", 'r', VF_R(worker), 1, worker->index, task->position, worker->index, task->state, done_index == waiting_index ? "\"sig\":1" : "\"sig\":0");
+#endif
+
 			/* if the just completed task is at this index */
 			if (done_index == waiting_index) {
 				/* notify the IO that a new read is complete */
@@ -330,6 +528,9 @@ static struct snapraid_task* io_reader_step(struct snapraid_worker* worker)
 		}
 
 		/* otherwise wait for a read_sched event */
+#ifdef SNAPRAID_VERIF
+		vf_event(io, "ReaderWait", 'r', VF_R(worker), 1, worker->index, -1, worker->index, 0, 0);
+#endif
 		thread_cond_wait(&io->read_sched, &io->io_mutex);
 	}
 }
@@ -343,6 +544,13 @@ static struct snapraid_task* io_writer_step(struct snapraid_worker* worker, int 
 {
 	struct snapraid_io* io = worker->io;
 	int error_index;
+#ifdef SNAPRAID_VERIF
+	int vf_ls = state; /* the state counted by this call, 0 once it is logged */
+#endif
+
+#ifdef SNAPRAID_VERIF
+	vf_perturb(0);
+#endif
 
 	/* the synchronization is protected by the io mutex */
 	thread_mutex_lock(&io->io_mutex);
@@ -372,6 +580,14 @@ static struct snapraid_task* io_writer_step(struct snapraid_worker* worker, int 
 			worker->index = next_index;
 			task = &worker->task_map[worker->index];
 
+#ifdef SNAPRAID_VERIF
+			{
+				char vf_extra[64];
+				snprintf(vf_extra, sizeof(vf_extra), "\"sig\":%d,\"ls\":%d", done_index == waiting_index, vf_ls);
+				vf_event(io, "WriterTake", 'w', VF_W(worker), 1, worker->index, task->position, worker->index, task->state, vf_extra);
+			}
+#endif
+
 			/* if the just completed task is at this index */
 			if (done_index == waiting_index) {
 				/* notify the IO that a new write is complete */
@@ -387,11 +603,26 @@ static struct snapraid_task* io_writer_step(struct snapraid_worker* worker, int 
 		/* check if the worker has to exit */
 		/* but only if there is no work to do */
 		if (io->done) {
+#ifdef SNAPRAID_VERIF
+			{
+				char vf_extra[64];
+				snprintf(vf_extra, sizeof(vf_extra), "\"ls\":%d", vf_ls);
+				vf_event(io, "WriterExit", 'w', VF_W(worker), 1, worker->index, -1, worker->index, 0, vf_extra);
+			}
+#endif
 			thread_mutex_unlock(&io->io_mutex);
 			return 0;
 		}
 
 		/* otherwise wait for a write_sched event */
+#ifdef SNAPRAID_VERIF
+		{
+			char vf_extra[64];
+			snprintf(vf_extra, sizeof(vf_extra), "\"ls\":%d", vf_ls);
+			vf_event(io, "WriterWait", 'w', VF_W(worker), 1, worker->index, -1, worker->index, 0, vf_extra);
+			vf_ls = 0;
+		}
+#endif
 		thread_cond_wait(&io->write_sched, &io->io_mutex);
 	}
 }
@@ -417,6 +648,10 @@ static block_off_t io_read_next_thread(struct snapraid_io* io, void*** buffer)
 	for (i = 0; i <= io->reader_max; ++i)
 		io->reader_list[i] = i;
 
+#ifdef SNAPRAID_VERIF
+	vf_perturb(0);
+#endif
+
 	/* the synchronization is protected by the io mutex */
 	thread_mutex_lock(&io->io_mutex);
 
@@ -431,6 +666,15 @@ static block_off_t io_read_next_thread(struct snapraid_io* io, void*** buffer)
 
 	/* set the buffer to use */
 	*buffer = io->buffer_map[io->reader_index];
+
+#ifdef SNAPRAID_VERIF
+	{
+		char vf_extra[64];
+		snprintf(vf_extra, sizeof(vf_extra), "\"cp\":%u", blockcur_caller);
+		vf_event(io, "ReadNext", 'm', 0, 1, (io->reader_index + io->io_max - 1) % io->io_max, blockcur_schedule, 0,
+			io->reader_map[0].task_map[(io->reader_index + io->io_max - 1) % io->io_max].state, vf_extra);
+	}
+#endif
 
 	/* signal all the workers that there is a new pending task */
 	thread_cond_broadcast_and_unlock(&io->read_sched, &io->io_mutex);
@@ -456,6 +700,10 @@ static void io_write_next_thread(struct snapraid_io* io, block_off_t blockcur, i
 	for (i = 0; i <= io->writer_max; ++i)
 		io->writer_list[i] = i;
 
+#ifdef SNAPRAID_VERIF
+	vf_perturb(0);
+#endif
+
 	/* the synchronization is protected by the io mutex */
 	thread_mutex_lock(&io->io_mutex);
 
@@ -478,6 +726,14 @@ static void io_write_next_thread(struct snapraid_io* io, block_off_t blockcur, i
 
 	/* set the index to be used for the next write */
 	io->writer_index = (io->writer_index + 1) % io->io_max;
+
+#ifdef SNAPRAID_VERIF
+	{
+		char vf_extra[128];
+		snprintf(vf_extra, sizeof(vf_extra), "\"skip\":%d,\"err\":[%d,%d,%d,%d]", skip ? 1 : 0, writer_error[0], writer_error[1], writer_error[2], writer_error[3]);
+		vf_event(io, "WriteNext", 'm', 0, 1, (io->writer_index + io->io_max - 1) % io->io_max, blockcur, 0, skip ? TASK_STATE_EMPTY : TASK_STATE_READY, vf_extra);
+	}
+#endif
 
 	/* signal all the workers that there is a new pending task */
 	thread_cond_broadcast_and_unlock(&io->write_sched, &io->io_mutex);
@@ -539,6 +795,10 @@ static struct snapraid_task* io_task_read_thread(struct snapraid_io* io, unsigne
 	/* clear the waiting indexes */
 	*waiting_mac = 0;
 
+#ifdef SNAPRAID_VERIF
+	vf_perturb(0);
+#endif
+
 	/* the synchronization is protected by the io mutex */
 	thread_mutex_lock(&io->io_mutex);
 
@@ -578,6 +838,10 @@ static struct snapraid_task* io_task_read_thread(struct snapraid_io* io, unsigne
 
 					task = &worker->task_map[io->reader_index];
 
+#ifdef SNAPRAID_VERIF
+					vf_event(io, "CallerGot", 'm', 0, 1, io->reader_index, task->position, i + 1, task->state, 0);
+#endif
+
 					thread_mutex_unlock(&io->io_mutex);
 
 					/* mark the worker as processed */
@@ -600,6 +864,9 @@ static struct snapraid_task* io_task_read_thread(struct snapraid_io* io, unsigne
 		}
 
 		/* if no worker is ready, wait for an event */
+#ifdef SNAPRAID_VERIF
+		vf_event(io, "CallerWaitRead", 'm', 0, 1, io->reader_index, -1, 0, 0, 0);
+#endif
 		thread_cond_wait(&io->read_done, &io->io_mutex);
 
 		/* count the cycles */
@@ -626,6 +893,10 @@ static void io_parity_write_thread(struct snapraid_io* io, unsigned* pos, unsign
 
 	/* clear the waiting indexes */
 	*waiting_mac = 0;
+
+#ifdef SNAPRAID_VERIF
+	vf_perturb(0);
+#endif
 
 	/* the synchronization is protected by the io mutex */
 	thread_mutex_lock(&io->io_mutex);
@@ -664,6 +935,9 @@ static void io_parity_write_thread(struct snapraid_io* io, unsigned* pos, unsign
 
 			/* if the worker has finished this index */
 			if (busy_index != worker->index) {
+#ifdef SNAPRAID_VERIF
+				vf_event(io, "CallerWriteOk", 'm', 0, 1, io->writer_index, -1, i + 1, 0, 0);
+#endif
 				thread_mutex_unlock(&io->io_mutex);
 
 				/* mark the worker as processed */
@@ -685,6 +959,9 @@ static void io_parity_write_thread(struct snapraid_io* io, unsigned* pos, unsign
 		}
 
 		/* if no worker is ready, wait for an event */
+#ifdef SNAPRAID_VERIF
+		vf_event(io, "CallerWaitWrite", 'm', 0, 1, io->writer_index, -1, 0, 0, 0);
+#endif
 		thread_cond_wait(&io->write_done, &io->io_mutex);
 
 		/* count the cycles */
@@ -699,7 +976,13 @@ static void io_reader_worker(struct snapraid_worker* worker, struct snapraid_tas
 		/* complete a dummy task */
 		task->state = TASK_STATE_EMPTY;
 	} else {
+#ifdef SNAPRAID_VERIF
+		vf_event(worker->io, "TaskBegin", 'r', VF_R(worker), 0, (int)(task - worker->task_map), task->position, worker->index, task->state, 0);
+#endif
 		worker->func(worker, task);
+#ifdef SNAPRAID_VERIF
+		vf_event(worker->io, "TaskEnd", 'r', VF_R(worker), 0, (int)(task - worker->task_map), task->position, worker->index, task->state, 0);
+#endif
 	}
 }
 
@@ -757,7 +1040,13 @@ static void* io_writer_thread(void* arg)
 		assert(task->state == TASK_STATE_READY);
 
 		/* work on the assigned task */
+#ifdef SNAPRAID_VERIF
+		vf_event(worker->io, "TaskBegin", 'w', VF_W(worker), 0, (int)(task - worker->task_map), task->position, worker->index, task->state, 0);
+#endif
 		worker->func(worker, task);
+#ifdef SNAPRAID_VERIF
+		vf_event(worker->io, "TaskEnd", 'w', VF_W(worker), 0, (int)(task - worker->task_map), task->position, worker->index, task->state, 0);
+#endif
 
 		/* save the resulting state */
 		latest_state = task->state;
@@ -805,6 +1094,10 @@ static void io_start_thread(struct snapraid_io* io,
 	for (i = 0; i <= io->writer_max; ++i)
 		io->writer_list[i] = i;
 
+#ifdef SNAPRAID_VERIF
+	vf_event_start(io);
+#endif
+
 	/* start the reader threads */
 	for (i = 0; i < io->reader_max; ++i) {
 		struct snapraid_worker* worker = &io->reader_map[i];
@@ -828,6 +1121,10 @@ static void io_stop_thread(struct snapraid_io* io)
 {
 	unsigned i;
 
+#ifdef SNAPRAID_VERIF
+	vf_perturb(0);
+#endif
+
 	thread_mutex_lock(&io->io_mutex);
 
 	/* mark that we are stopping */
@@ -836,6 +1133,10 @@ static void io_stop_thread(struct snapraid_io* io)
 	/* signal all the threads to recognize the new state */
 	thread_cond_broadcast(&io->read_sched);
 	thread_cond_broadcast(&io->write_sched);
+
+#ifdef SNAPRAID_VERIF
+	vf_event(io, "Stop", 'm', 0, 1, -1, -1, 0, 0, 0);
+#endif
 
 	thread_mutex_unlock(&io->io_mutex);
 
@@ -856,6 +1157,10 @@ static void io_stop_thread(struct snapraid_io* io)
 		/* wait for thread termination */
 		thread_join(worker->thread, &retval);
 	}
+
+#ifdef SNAPRAID_VERIF
+	vf_event(io, "Join", 'm', 0, 0, -1, -1, 0, 0, 0);
+#endif
 }
 
 #endif
@@ -876,6 +1181,10 @@ void io_init(struct snapraid_io* io, struct snapraid_state* state,
 	size_t block_size = state->block_size;
 
 	io->state = state;
+
+#ifdef SNAPRAID_VERIF
+	vf_init();
+#endif
 
 	/* initialize bandwidth limiting */
 	bw_init(&io->bw, state->opt.bwlimit);
